@@ -63,7 +63,8 @@ def build(desc):
     for p in desc["panels"]:
         panel = receiver.Panel(opt_of(p["stiff"]))
         for td in p["tubes"]:
-            tube = receiver.Tube(R_OUT, THICK, HEIGHT, td["nr"], td.get("nt", NT), NZ, T0=td["T0"],
+            ro, thk = td.get("ro", R_OUT), td.get("th", THICK)
+            tube = receiver.Tube(ro, thk, HEIGHT, td["nr"], td.get("nt", NT), NZ, T0=td["T0"],
                                  multiplier=td.get("mult", 1))
             if td["dim"] == 1:
                 tube.make_1D(HEIGHT / 2, 0.0)
@@ -74,9 +75,9 @@ def build(desc):
             tht = np.linspace(0, 2 * np.pi, nt + 1)[:nt]
             flux = td["flux"] * onoff[:, None, None] * (0.25 + np.maximum(np.cos(tht), 0.0))[None, :, None] \
                 * np.ones((1, 1, NZ))
-            tube.set_bc(receiver.HeatFluxBC(R_OUT, HEIGHT, nt, NZ, times, flux), "outer")
+            tube.set_bc(receiver.HeatFluxBC(ro, HEIGHT, nt, NZ, times, flux), "outer")
             if not desc.get("flowpath"):
-                tube.set_bc(receiver.ConvectiveBC(R_OUT - THICK, HEIGHT, NZ, times,
+                tube.set_bc(receiver.ConvectiveBC(ro - thk, HEIGHT, NZ, times,
                                                   np.full((len(times), NZ), td["Tf"])), "inner")
             tube.set_pressure_bc(receiver.PressureBC(times, td["p"] * onoff))
             panel.add_tube(tube)
@@ -99,7 +100,10 @@ def gen_tube(rng, dim, big=False):
     return {"dim": dim, "nr": (6 if big else rng.choice([4, 5])), "nt": (12 if big and dim == 2 else NT),
             "T0": 800.0, "Tf": rng.choice([790.0, 800.0, 810.0]),
             "flux": rng.choice([0.2, 0.3, 0.4, 0.5, 0.6]) + rng.randrange(0, 16) / 256.0,
-            "p": rng.choice([0.5, 1.0, 2.0]), "mult": rng.choice([1, 1, 2, 5])}
+            "p": rng.choice([0.5, 1.0, 2.0]), "mult": rng.choice([1, 1, 2, 5]),
+            # tube gauges differ while the discretisation is shared: anything remembered per process and keyed on
+            # the grid size alone would leak from one tube to the next tube of that worker
+            "ro": rng.choice([R_OUT, R_OUT, 1.2 * R_OUT]), "th": rng.choice([THICK, 0.8 * THICK])}
 
 
 def num_opt(rng):
@@ -186,8 +190,18 @@ def materials_for(kind):
 class SerialPool:
     """in-process stand-in for multiprocess.Pool used ONLY for the reference run"""
 
-    def __init__(self, n=None):
+    def __init__(self, n=None, reverse=False):
         self.n = n
+        self.reverse = reverse     # evaluate the tasks last-to-first (results still in submission order)
+
+    def _run(self, f, items):
+        items = list(items)
+        if not self.reverse:
+            return [f(x) for x in items]
+        out = [None] * len(items)
+        for i in reversed(range(len(items))):
+            out[i] = f(items[i])
+        return out
 
     def __enter__(self):
         return self
@@ -196,16 +210,16 @@ class SerialPool:
         return False
 
     def map(self, f, it, chunksize=None):
-        return list(map(f, it))
+        return self._run(f, it)
 
     def imap(self, f, it, chunksize=1):
-        return map(f, it)
+        return iter(self._run(f, it))
 
     def imap_unordered(self, f, it, chunksize=1):
-        return map(f, it)          # submission order is one of the orders the real call may produce
+        return iter(self._run(f, it))     # submission order is one of the orders the real call may produce
 
     def starmap(self, f, it, chunksize=None):
-        return [f(*a) for a in it]
+        return self._run(lambda a: f(*a), it)
 
     def apply(self, f, args=(), kwds=None):
         return f(*args, **(kwds or {}))
@@ -245,8 +259,9 @@ class Instr:
     """patches multiprocess.Pool (recording wrapper around the REAL pool, or SerialPool for the
     reference) and records what SpringSystemSolver.solve did with its sub-problems"""
 
-    def __init__(self, serial=False):
+    def __init__(self, serial=False, reverse=False):
         self.serial = serial
+        self.reverse = reverse
         self.pools = []          # processes of every pool created in this (parent) process
         self.subs = None         # tube counts of the sub-problems returned by reduce_graph
         self.parent_solve_all = []   # nthreads of solve_all calls executed in the parent
@@ -264,7 +279,7 @@ class Instr:
         def pool(n=None, *a, **k):
             if os.getpid() == pid:
                 me.pools.append(n)
-            return SerialPool(n) if me.serial else real_pool(n, *a, **k)
+            return SerialPool(n, reverse=me.reverse) if me.serial else real_pool(n, *a, **k)
 
         def reduce_graph(net):
             subs = me._rg(net)
@@ -317,7 +332,8 @@ def snapshot(model):
 def cfg_name(cfg):
     return "nthreads=%d progress=%s paging=%s%s" % (
         cfg["nthreads"], "on" if cfg["progress"] else "off", "on" if cfg["page"] else "off",
-        " (thermal+structural in-process, damage through the real pool)" if cfg.get("inproc_before_damage") else "")
+        " (thermal+structural in-process, damage through the real pool)" if cfg.get("inproc_before_damage") else
+        " (in-process, tasks evaluated last-to-first)" if cfg.get("inproc_reversed") else "")
 
 
 REL_TIME = 100000.0
@@ -325,9 +341,12 @@ STAGE_LIMIT = 600
 
 
 def run_pipeline(desc, cfg, reference=False):
-    """paged runs go through a child process: a change that makes two tubes share one paging file ends
+    """runs go through a child process: a change that makes two tubes share one paging file ends
     in SIGBUS, which must be a recorded result and not the death of the check"""
-    if not cfg["page"]:
+    # every run -- the reference too -- happens in a child forked from a parent that never solves anything itself:
+    # state a solve leaves behind in its process (module- or class-level caches) then differs between schedules
+    # instead of being shared by all of them
+    if os.environ.get("C08_NOFORK"):
         return _run_pipeline(desc, cfg, reference)
     import pickle
     import signal as _signal
@@ -351,7 +370,7 @@ def run_pipeline(desc, cfg, reference=False):
         why = ("killed by signal %d (%s)" % (os.WTERMSIG(status), _signal.Signals(os.WTERMSIG(status)).name)
                if os.WIFSIGNALED(status) else "exited with status %d without a result" % os.WEXITSTATUS(status))
         stages = ["thermal"] if desc["material"] == "thermohydraulic" else ["thermal", "structural", "damage"]
-        return {"stages": {st: ("raised ProcessCrash: the paged pipeline %s" % why if k == 0 else "skipped") for k, st in enumerate(stages)},
+        return {"stages": {st: ("raised ProcessCrash: the pipeline process %s" % why if k == 0 else "skipped") for k, st in enumerate(stages)},
                 "snaps": {}, "life": None, "rel": None, "branch": None, "subs": None, "pools": {}, "verbose_branch": None,
                 "paged_types": None, "errors": {stages[0]: ("ProcessCrash", why)}}
     return pickle.loads(data)
@@ -398,7 +417,7 @@ def _run_pipeline(desc, cfg, reference=False):
             so, se = io.StringIO(), io.StringIO()
             inproc = reference or (cfg.get("inproc_before_damage") and st != "damage")
             try:
-                with Instr(serial=inproc) as ins, contextlib.redirect_stdout(so), contextlib.redirect_stderr(se), \
+                with Instr(serial=inproc, reverse=bool(cfg.get("inproc_reversed"))) as ins, contextlib.redirect_stdout(so), contextlib.redirect_stderr(se), \
                         time_limit(STAGE_LIMIT):
                     if st == "thermal":
                         mgr.solve_heat_transfer()
@@ -766,6 +785,18 @@ def run(ctx):
             viol.append(("%s: paged in-process run differs from the in-memory one: %s: %s" % (describe(desc), dp[0][0], dp[0][1]),
                          {"desc": desc, "cfg": {"nthreads": 1, "progress": False, "page": True}, "reference_vs_paged_reference": True,
                           "all": dp[:8]}, "c08:paging-changes-values"))
+        # the same tasks evaluated last-to-first in one process: a legal schedule; anything a task leaves behind
+        # in the process (module- or class-level state) must not reach the next task
+        refr = run_pipeline(desc, dict(base_cfg, inproc_reversed=True), reference=True)
+        dr_ = compare(ref, refr) + [(s_, "reversed-order in-process run " + v) for s_, v in refr["stages"].items() if v != "ok"]
+        for st in refr["stages"]:
+            ctx.case((describe(desc), "ref-reversed", st), nontrivial=True, tag="%s/%s/in-process reversed task order/%s" % (
+                desc["name"], st, "identical" if not dr_ else "DIFFERS"))
+        if dr_:
+            viol.append(("%s: evaluating the tasks of a stage last-to-first in one process changes results: %s: %s" % (
+                describe(desc), dr_[0][0], dr_[0][1]),
+                {"desc": desc, "cfg": dict(base_cfg, inproc_reversed=True), "reference_reversed": True, "all": dr_[:8]},
+                "c08:task-order-changes-values"))
         for cfg in configs(ctx, kindm, desc["name"]):
             out = run_pipeline(desc, cfg)
             diffs = compare(ref, out)
@@ -968,7 +999,7 @@ def replay(obj):
     print("receiver:", describe(desc))
     print("configuration:", cfg_name(cfg))
     ref = run_pipeline(desc, {"nthreads": 1, "progress": False, "page": False}, reference=True)
-    out = run_pipeline(desc, cfg, reference=bool(r.get("reference_vs_paged_reference")))
+    out = run_pipeline(desc, cfg, reference=bool(r.get("reference_vs_paged_reference") or r.get("reference_reversed")))
     print("stages:", out["stages"], "branch:", out["branch"], "pools:", out["pools"])
     diffs = compare(ref, out)
     for st, what in diffs[:20]:
